@@ -159,6 +159,9 @@ func (p Profile) fn(r *rand.Rand, maxIn, maxOut int, target bool) FuncSpec {
 	if f.Form == "ptr" && !target && len(f.Out) > 0 && r.Intn(25) == 0 {
 		f.NilOut = true
 	}
+	if f.Form == "pos" && !target && len(f.Out) == 1 && f.Out[0].Type == "PE" && plain(f.Out) && r.Intn(2) == 0 {
+		f.NilOut = true
+	}
 	return f
 }
 
@@ -187,13 +190,13 @@ func (p Profile) Random(r *rand.Rand, sid int) Scenario {
 			l := Label{Type: pick(r, append(append([]string{}, p.Types...), p.Ifaces...))}
 			if s.Mode == "convcall" && r.Intn(8) == 0 {
 				// corners of "for all target types": the error interface; two types printing the same name
-				l.Type = pick(r, []string{"E", "L1", "L2"})
+				l.Type = pick(r, []string{"E", "PE", "L1", "L2"})
 			}
 			s.Target = FuncSpec{In: []Label{l}, Out: []Label{l}, Form: "pos"}
 		}
 		ni := r.Intn(p.MaxInputs + 1)
 		keys := map[string]bool{}
-		special := map[string]string{"E": "PE", "L1": "L1", "L2": "L2"}[s.Target.In0Type()]
+		special := map[string]string{"E": "PE", "PE": "PE", "L1": "L1", "L2": "L2"}[s.Target.In0Type()]
 		for i := 0; i < ni; i++ {
 			l := Label{Name: pick(r, p.Names), Type: pick(r, p.Types), Sub: pick(r, p.Subs)}
 			if special != "" && r.Intn(2) == 0 {
@@ -219,6 +222,13 @@ func (p Profile) Random(r *rand.Rand, sid int) Scenario {
 				}
 			}
 			s.Convs = append(s.Convs, c)
+		}
+		if special == "PE" && len(s.Convs) > 0 {
+			// a converter producing the pointer type, sometimes a nil pointer
+			c := &s.Convs[r.Intn(len(s.Convs))]
+			c.Out = []Label{{Type: "PE"}}
+			c.Form = "pos"
+			c.NilOut = r.Intn(2) == 0
 		}
 		if r.Float64() < p.GenProb {
 			modes := []string{"conv", "conv", "conv", "nil", "err"}
